@@ -196,4 +196,91 @@ theorem simple_built (o : Opts) (hb : LenBounds o) :
         obtain ⟨h1, h2, h3, h4⟩ := bothStep_spec o.paired (o.pairFilter.getD .any) .casava
         exact .inr ⟨_, rfl, h1, h2, h3, by simp [h4]⟩) (by omega) (Nat.le_refl _)
   simpa [simpleSteps, List.append_assoc] using t4
+
+def sixIds : List String :=
+  ["too_short", "too_long", "too_many_n", "too_many_expected_errors", "too_high_average_error_rate", "casava_filtered"]
+def allIds : List String := sixIds ++ ["discard_trimmed", "discard_untrimmed"]
+
+theorem untrimmed_built {pre : List Step} {f : Files} (o : Opts) (names names2 : List String) (mode : PairMode)
+    (h : Built pre 6 sixIds f.writers.length) :
+    Built (pre ++ (untrimmedFilter o names names2 mode f).2) 7 allIds (untrimmedFilter o names names2 mode f).1.writers.length ∧
+    f.writers.length ≤ (untrimmedFilter o names names2 mode f).1.writers.length := by
+  have hdt : (sixIds ++ ["discard_trimmed"]).Sublist allIds := by decide
+  have hdu : (sixIds ++ ["discard_untrimmed"]).Sublist allIds := by decide
+  unfold untrimmedFilter
+  by_cases c1 : o.discardTrimmed = true
+  · simp only [c1, if_true]
+    obtain ⟨h1, h2, h3, h4⟩ := bothStep_spec o.paired mode .isTrimmed
+    exact ⟨(h.snoc_opt _ 7 "discard_trimmed" (.inr ⟨_, rfl, h1, h2, h3, by simp [h4]⟩) (by omega) (Nat.le_refl _)).ids_mono hdt,
+      Nat.le_refl _⟩
+  · by_cases c2 : o.discardUntrimmed = true
+    · simp only [c1, c2, if_true, if_false]
+      refine ⟨(h.snoc_opt _ 7 "discard_untrimmed" (.inr ⟨_, rfl, ?_, ?_, ?_, ?_⟩) (by omega) (Nat.le_refl _)).ids_mono hdu,
+        Nat.le_refl _⟩
+      · cases o.paired <;> rfl
+      · cases o.paired <;> rfl
+      · cases o.paired <;> rfl
+      · cases o.paired <;> simp [Step.writers]
+    · by_cases c3 : (o.untrimmedOut.isSome || o.untrimmedPaired.isSome) = true
+      · simp only [c1, c2, c3, if_true, if_false]
+        obtain ⟨g1, -, g3⟩ := filterWriter_spec o.paired f o.untrimmedOut o.untrimmedPaired
+        refine ⟨(h.snoc_opt _ 7 "discard_untrimmed" (.inr ⟨_, rfl, rfl, rfl, rfl, ?_⟩) (by omega) g1).ids_mono hdu, g1⟩
+        intro w hw
+        simp only [Step.writers, Option.mem_toList] at hw
+        exact (g3 w hw).2
+      · simp only [c1, c2, c3, if_false]
+        have : sixIds.Sublist allIds := by decide
+        simpa using ⟨(h.mono (by omega) (Nat.le_refl _)).ids_mono this, Nat.le_refl _⟩
+
+/-- **Shape of the assembled step list.** -/
+theorem makeSteps_shape {o : Opts} {names names2 : List String} {steps : List Step} {f : Files}
+    (hb : LenBounds o) (h : makeSteps o names names2 = .ok (steps, f)) :
+    ∃ pre last n, steps = pre ++ [last] ∧ Built pre 7 allIds n ∧ last.isFinal = true ∧ stepRank last = 8 ∧
+      (∀ w ∈ last.writers, n ≤ w) ∧ ((pre ++ [last]).filterMap Step.filterIdent).Sublist allIds := by
+  obtain ⟨dm, hdm, hf, hk, heq⟩ := makeSteps_ok h
+  have hs := simple_built o hb
+  have h6 : sixIds.Sublist allIds := by decide
+  have h6u : (sixIds ++ ["discard_untrimmed"]).Sublist allIds := by decide
+  unfold finalD at heq
+  by_cases hd1 : dm = 1
+  · simp only [hd1, if_true] at heq
+    have hkeys : ((front o).2 ++ simpleSteps o ++ [Step.demux (openMany (front o).1 names (demuxWriter o)).2 none]).filterMap
+        Step.filterIdent |>.Sublist allIds := by
+      rw [List.filterMap_append]
+      exact (List.Sublist.append hs.idents (List.Sublist.refl _)).trans h6u
+    by_cases c : o.discardUntrimmed = true
+    · simp only [c, if_true, Prod.mk.injEq] at heq
+      refine ⟨_, _, (front o).1.writers.length, heq.1, (hs.mono (by omega) (Nat.le_refl _)).ids_mono h6, rfl, rfl, ?_, hkeys⟩
+      intro w hw
+      simp only [Step.writers, openMany, Option.toList_none, List.append_nil, List.mem_map] at hw
+      obtain ⟨⟨a, i⟩, hm, rfl⟩ := hw
+      exact (List.mem_zipIdx hm).1
+    · simp only [c, Prod.mk.injEq] at heq
+      refine ⟨_, _, (front o).1.writers.length, heq.1, (hs.mono (by omega) (Nat.le_refl _)).ids_mono h6, rfl, rfl, ?_, ?_⟩
+      · intro w hw
+        simp only [Step.writers, openMany, List.mem_append, List.mem_map, Option.toList_some, List.mem_singleton,
+          List.length_append, List.length_map] at hw
+        rcases hw with ⟨⟨a, i⟩, hm, rfl⟩ | rfl
+        · exact (List.mem_zipIdx hm).1
+        · omega
+      · rw [List.filterMap_append]
+        exact (List.Sublist.append hs.idents (List.Sublist.refl _)).trans h6u
+  · by_cases hd2 : dm = 2
+    · simp only [hd2, if_true, Prod.mk.injEq] at heq
+      simp only [show (2 : Nat) = 1 ↔ False by decide, if_false] at heq
+      refine ⟨_, _, (front o).1.writers.length, heq.1, (hs.mono (by omega) (Nat.le_refl _)).ids_mono h6, rfl, rfl, ?_, ?_⟩
+      · intro w hw
+        simp only [Step.writers, openMany, List.mem_map] at hw
+        obtain ⟨⟨a, i⟩, hm, rfl⟩ := hw
+        exact (List.mem_zipIdx hm).1
+      · rw [List.filterMap_append]
+        exact (List.Sublist.append hs.idents (List.Sublist.refl _)).trans h6u
+    · simp only [hd1, hd2, if_false, Prod.mk.injEq] at heq
+      obtain ⟨hu, hle⟩ := untrimmed_built o names names2 (o.pairFilter.getD .any) hs
+      refine ⟨_, _, _, heq.1, hu, rfl, rfl, ?_, ?_⟩
+      · intro w hw
+        simp only [Step.writers, List.mem_singleton] at hw
+        omega
+      · rw [List.filterMap_append]
+        simpa [Step.filterIdent] using hu.idents
 end Cutadapt.Steps
